@@ -67,12 +67,13 @@ func registerMore() {
 		Bounds: []string{"quick: single non-batch member; value classes: version {2.0, other string, non-string}, method {ok, nosuch, rpc.other, empty, non-string, null}, error {object, non-object}, unknown key only with request fields",
 			"thorough: all classes (adds null version/error, failing handler, rpc.serverInfo), arrays of 1..2 members", "all map iteration orders for <= 3 present keys (thorough: <= 4), one fixed order otherwise",
 			"ids of members of one batch pairwise different (duplicates: C07)", "one unknown key stands for any number"},
-		Outside:     []string{"undecodable top-level JSON / empty batch (C13 harness covers ParseRequests; the reader's pushErrorLocked path is in C08)", "random and mutated records beyond the bound (sampling is not done)", "duplicate keys inside one object (resolved by encoding/json)"},
+		Outside:     []string{"random and mutated records beyond the bound (sampling is not done)", "duplicate keys inside one object (resolved by encoding/json)"},
 		Assumptions: append([]string{jsonAssumption, "reply-shaped member = carries a result or a well-formed error object and no method name (method absent, null, empty or not a string)"}, commonAssumptions...),
 		Harnesses: []HarnessSpec{
 			{Dir: "jrpc2", Name: "Harness_C02_single", Reach: []string{"dispatched", "silent", "single-reply"}},
 			{Dir: "jrpc2", Name: "Harness_selftest_wire", Reach: []string{"selftest-done", "selftest-broken-json"}, Tweak: delays(0, 1),
 				Bounds: map[string]string{"purpose": "engine validation: the inputs and expected replies of the repository's own TestServer_nonLibraryClient table (19 rows + 2 broken records) run through the engine; a mismatch makes the check inconclusive"}},
+			{Dir: "jrpc2", Name: "Harness_C02_envelope", Reach: []string{"answered", "alive"}},
 			{Dir: "jrpc2", Name: "Harness_C02_batch", Reach: []string{"batch-reply"}, ThoroughOnly: true},
 		},
 	})
@@ -115,6 +116,7 @@ func registerMore() {
 			{Dir: "handler", Name: "Harness_C17_map", Reach: []string{"hit", "miss"}},
 			{Dir: "handler", Name: "Harness_C17_servicemap", Reach: []string{"nodot", "dispatched", "unknown-service"}},
 			{Dir: "handler", Name: "Harness_C17_nested", Reach: []string{"nested", "empty-segment"}},
+			{Dir: "handler", Name: "Harness_C17_names", Reach: []string{"names"}},
 			{Dir: "jrpc2", Name: "Harness_C17_builtin", Reach: []string{"reserved", "serverinfo", "assigned"}},
 			{Dir: "jrpc2", Name: "Harness_C17_context", Reach: []string{"handler-ran"}},
 		},
@@ -203,7 +205,7 @@ func registerMore2() {
 			{Dir: "jhttp", Name: "Harness_C19_query", Reach: []string{"returned", "number", "quoted", "bytes", "literal", "liberal-number"}},
 			{Dir: "jhttp", Name: "Harness_C19_path", Reach: []string{"returned"}},
 			{Dir: "jhttp", Name: "Harness_C19_getter", Reach: []string{"200", "400", "404", "500"}},
-			{Dir: "jhttp", Name: "Harness_C19_channel", Reach: []string{"call", "notify", "batch", "http-failure", "closed"}},
+			{Dir: "jhttp", Name: "Harness_C19_channel", Reach: []string{"call", "notify", "batch", "http-failure", "close-in-flight", "closed"}},
 		},
 	})
 	addProp(&PropSpec{
@@ -237,6 +239,8 @@ func registerMore2() {
 		Assumptions: append([]string{jsonAssumption, threadAssumption}, commonAssumptions...),
 		Harnesses: []HarnessSpec{
 			{Dir: "jrpc2", Name: "Harness_C01_batch", Reach: []string{"no-output", "result", "error", "unmarshalable"}, Tweak: delays(2, 3)},
+			{Dir: "jrpc2", Name: "Harness_C03_order", Reach: []string{"done"}, Tweak: delays(1, 2),
+				Bounds: map[string]string{"purpose": "several inbound messages in flight on a started server: exactly one response per call id across all outbound messages, none for notifications"}},
 		},
 	})
 	clientExpl := "Inductive single-step verification of the client: from an arbitrary state allowed by the invariant (0..2 pending requests with distinct decimal ids below a symbolic id counter, each with an empty unsettled slot; running or stopped) one real operation is executed with symbolic arguments - deliverLocked of an arbitrary inbound member, a whole Client.Batch of 1..3 specs (goroutine, then its replies in reverse order), waitComplete after the context ended (before/after the reply), stopLocked with each cause twice, operations on a stopped client - and the invariant plus the per-step contract are asserted. "
@@ -246,7 +250,8 @@ func registerMore2() {
 		Bounds:      []string{"<= 2 pending requests in the pre-state", "Batch of 1..3 specs", "id counter any value in [1, 2^40)", "delay bound 2"},
 		Outside:     []string{"reply ids that are textually different but numerically equal to a pending id (e.g. 01, 1.0) are 'other ids' (the client compares text)", "grouping of replies into arrays is a sequence of deliverLocked steps (covered by induction, not run as one record)"},
 		Assumptions: append([]string{jsonAssumption, threadAssumption, "strconv.FormatInt of a symbolic integer is an opaque decimal token, injective in the integer"}, commonAssumptions...),
-		Harnesses:   []HarnessSpec{{Dir: "jrpc2", Name: "Harness_C04_step", Reach: []string{"delivered", "unknown-id", "sent", "notes-only", "send-failed"}, Tweak: delays(2, 3)}},
+		Harnesses: []HarnessSpec{{Dir: "jrpc2", Name: "Harness_C04_step", Reach: []string{"delivered", "unknown-id", "sent", "notes-only", "send-failed"}, Tweak: delays(2, 3)},
+			{Dir: "jrpc2", Name: "Harness_C04_stream", Reach: []string{"stream-done"}, Tweak: delays(2, 3)}},
 	})
 	addProp(&PropSpec{
 		ID:          "C05",
